@@ -13,7 +13,7 @@
           close): a failed flush at close must fail the generator, otherwise a truncated file is reported as done
    C33.c  the location handed to a match processor is the start of the match (node.position), on every definition
    C34.g  the cross-reference position lists are sorted after the resolution loop, for every model of the load"""
-import ast
+import os, ast
 from sa.util import *
 from sa import sem
 E = "textx/export.py"; M = "textx/model.py"; CK = "textx/cli/check.py"; GN = "textx/cli/generate.py"
@@ -88,38 +88,127 @@ def r_export2(root):
 def r_cli2(root):
     out = []; inst = 0
     # ---- C30.d
-    t = load(root, CK); fn = find(t, "check.check") if True else None
-    fi = sem.info(fn)
-    look = [c for c in calls(fn) if callee_name(c) == "metamodel_for_file"]
-    if not look: raise AnalysisError("check: per-file metamodel lookup not found")
-    for c in look:
+    # by evaluation of the command body: which meta-model loads which file, and the exit status
+    from sa import pyeval
+    t = load(root, CK); fn = find(t, "check.check")
+    ps = [a.arg for a in fn.args.args]
+    if ps[:2] != ["ctx", "model_files"]: raise AnalysisError("check: parameters %s" % ps)
+    fns = {k: v for k, v in helper_functions(root, CK, "check.check").items() if k != "check"}
+    def run(files, language=None, grammar=None, ignore_case=False, failing=(), unregistered=()):
+        log = []
+        def mm(tag):
+            def model_from_file(f, **kw):
+                log.append(("load", tag, f, kw.get("debug")))
+                if f in failing:
+                    r_ = pyeval.Raised("TextXSyntaxError"); r_.bases = ["TextXSyntaxError", "TextXError", "Exception"]; raise r_
+                return {".kind": "model"}
+            return {".kind": "metamodel", ".tag": tag, ".model_from_file": pyeval.PyFn(model_from_file)}
+        def for_file(f):
+            log.append(("for_file", f))
+            if f in unregistered:
+                r_ = pyeval.Raised("TextXRegistrationError"); r_.bases = ["TextXRegistrationError", "TextXError", "Exception"]; raise r_
+            return mm("language of *" + f[f.index("."):])
+        def for_language(l, **kw): log.append(("for_language", l)); return mm("language " + l)
+        def from_file(g, **kw): log.append(("from_file", g, kw.get("debug"), kw.get("ignore_case"))); return mm("grammar " + g)
+        def exit_(code=0):
+            r_ = pyeval.Raised("SystemExit"); r_.value = {".code": code}; raise r_
+        env = {"__functions__": fns, "ctx": {".obj": {"debug": "DBG"}}, "model_files": tuple(files), "language": language, "grammar": grammar, "ignore_case": ignore_case,
+               "metamodel_for_file": pyeval.PyFn(for_file), "metamodel_for_language": pyeval.PyFn(for_language), "metamodel_from_file": pyeval.PyFn(from_file),
+               "logger": {".info": pyeval.PyFn(lambda *a, **k: None), ".error": pyeval.PyFn(lambda *a, **k: None)}, "logging": {".error": pyeval.PyFn(lambda *a, **k: None), ".info": pyeval.PyFn(lambda *a, **k: None)},
+               "sys": {".exit": pyeval.PyFn(exit_)}, "os": {".path": {".abspath": pyeval.PyFn(lambda f: "/abs/" + f), ".splitext": pyeval.PyFn(os.path.splitext), ".basename": pyeval.PyFn(os.path.basename), ".dirname": pyeval.PyFn(os.path.dirname), ".join": pyeval.PyFn(os.path.join)}}}
+        for extra_ in ps[2:]: env.setdefault(extra_, None)
+        try: pyeval.run_block(fn.body, env); status = 0
+        except pyeval.Raised as r_:
+            status = r_.value.get(".code") if r_.cls == "SystemExit" and isinstance(r_.value, dict) else "raises " + r_.cls
+        except pyeval.Unsupported as u_: raise AnalysisError("check: outside the evaluated subset: %s" % u_)
+        return status, [x[1:3] for x in log if x[0] == "load"], log
+    CASES = [("three files of two languages, none named", dict(files=["a.x", "b.y", "c.x"]), 0, [("language of *.x", "a.x"), ("language of *.y", "b.y"), ("language of *.x", "c.x")]),
+             ("two languages registered for patterns with the same last extension", dict(files=["a.x", "b.flow.x", "c.x"]), 0, [("language of *.x", "a.x"), ("language of *.flow.x", "b.flow.x"), ("language of *.x", "c.x")]),
+             ("--language given", dict(files=["a.x", "b.y"], language="L"), 0, [("language L", "a.x"), ("language L", "b.y")]),
+             ("--grammar given", dict(files=["a.x", "b.y"], grammar="g.tx", ignore_case=True), 0, [("grammar g.tx", "a.x"), ("grammar g.tx", "b.y")]),
+             ("--grammar and --language given", dict(files=["a.x"], grammar="g.tx", language="L"), 0, [("grammar g.tx", "a.x")]),
+             ("the second of three files is invalid", dict(files=["a.x", "b.y", "c.x"], failing=("b.y",)), 1, None),
+             ("the last file is invalid", dict(files=["a.x", "b.y"], failing=("b.y",)), 1, None),
+             ("no language is registered for the second file", dict(files=["a.x", "b.zz"], unregistered=("b.zz",)), 1, None),
+             ("one valid file", dict(files=["a.x"]), 0, [("language of *.x", "a.x")])]
+    for what, kw, want_status, want_loads in CASES:
         inst += 1
-        loop = next((a for a in ancestors(c) if isinstance(a, ast.For)), None)
-        if loop is None: raise AnalysisError("check: per-file lookup is not inside the loop over the files")
-        assigned_in_loop = {x.id for n in ast.walk(loop) if isinstance(n, ast.Assign) for tg in n.targets for x in ast.walk(tg) if isinstance(x, ast.Name)}
-        bad = []
-        for g, pol in fi.guards(c):
-            if not any(a is loop for a in ancestors(g)): continue
-            if {x.id for x in ast.walk(g) if isinstance(x, ast.Name)} & assigned_in_loop: bad.append(g)
-        ob("C30", "C30.d", CK, "check", ast.unparse(c), not bad)
-        for g in bad:
-            out.append(Finding("C30", "C30.d", CK, "check", ast.unparse(g), "the per-file metamodel lookup is skipped once a metamodel has been found: later files of another language are checked with the first file's language (wrong exit code both ways)", witness="textx check model.tx model.dsl  without --grammar/--language"))
-    # ---- C30.e
-    t2 = load(root, GN); gf = find_i(root, GN, "generate.generate.generate")
-    rs = [r for r in ast.walk(gf) if isinstance(r, ast.Raise) and "must be provided" in ast.unparse(r)]
-    if not rs: raise AnalysisError("generate: mandatory-parameter error not found")
-    for r in rs:
-        fg = sem.info(gf)
-        inst += 1; bad = []
-        for g, pol in fg.guards(r):
-            def truth_of_given(tst):
-                if isinstance(tst, ast.BoolOp): return any(truth_of_given(v) for v in tst.values)
-                if isinstance(tst, ast.UnaryOp): return truth_of_given(tst.operand)
-                return isinstance(tst, ast.Name) and tst.id in ("given_args", "custom_args")
-            if truth_of_given(g): bad.append(g)
-        ob("C30", "C30.e", GN, "generate", "mandatory check independent of given arguments", not bad)
-        for g in bad:
-            out.append(Finding("C30", "C30.e", GN, "generate", ast.unparse(g), "a missing mandatory generator parameter is only reported when at least one custom argument was given: with none at all the generator runs without it and the command exits 0", witness="generator declaring a mandatory parameter, invoked without any --arg"))
+        status, loads, log = run(**kw)
+        okc = status == want_status and (want_loads is None or loads == want_loads)
+        if kw.get("grammar") and okc: okc = ("from_file", "g.tx", "DBG", kw.get("ignore_case", False)) in log
+        if want_loads is not None and okc: okc = all(x[3] == "DBG" for x in log if x[0] == "load")
+        ob("C30", "C30.d", CK, "check", what, okc)
+        if not okc: out.append(Finding("C30", "C30.d", CK, "check", what, "textx check with %s: exit status %s, files checked %s; documented: exit status %s%s" % (what, status, loads, want_status, ", every file checked with the meta-model of its own language / the given grammar or language, with the debug flag of the command" if want_loads is not None else " (an invalid file or an unknown language is an error)")))
+    # ---- C30.g  the generate command by evaluation: argument parsing, per-file language, validation against the generator's declaration, exit status
+    tg_ = load(root, GN); gfn = find(tg_, "generate.generate")
+    gps = [a.arg for a in gfn.args.args]
+    for need in ("ctx", "arguments", "target"):
+        if need not in gps: raise AnalysisError("generate: parameter %s not found (%s)" % (need, gps))
+    gfns = {k: v for k, v in helper_functions(root, GN, "generate.generate").items() if k != "generate"}
+    def arg_(name, mandatory=False): return {".kind": "arg", ".name": name, ".mandatory": mandatory, ".description": ""}
+    DECL = {"lx": None, "ly": [arg_("name", True), arg_("my_flag"), arg_("opt")], "lz": [], "any": [arg_("name")], "textx": [arg_("name"), arg_("my_flag")], "L": [arg_("name", True)]}
+    def grun(arguments, language=None, grammar=None, target="T", failing_gen=(), **opts):
+        log = []
+        def mm(tag):
+            def model_from_file(f, **kw): log.append(("load", tag, f, dict(kw))); return {".kind": "model", ".file": f}
+            return {".kind": "metamodel", ".tag": tag, ".model_from_file": pyeval.PyFn(model_from_file), ".model_param_defs": {"opt": "a model parameter"}}
+        def lang_of(f): return "l" + f.rsplit(".", 1)[-1]
+        def gen_desc(language, target, any_permitted=False):
+            log.append(("describe", language, target, any_permitted))
+            if language not in DECL:
+                r_ = pyeval.Raised("TextXRegistrationError"); r_.bases = ["TextXRegistrationError", "TextXError", "Exception"]; raise r_
+            def gen(metamodel, model, output_path, overwrite, debug, **kw):
+                log.append(("generate", language, metamodel.get(".tag"), model.get(".file") if isinstance(model, dict) else model, output_path, overwrite, debug, dict(kw)))
+                if language in failing_gen:
+                    r_ = pyeval.Raised("TextXError"); r_.bases = ["TextXError", "Exception"]; raise r_
+            return {".kind": "generator", ".language": language, ".target": target, ".custom_args": DECL[language], ".generator": pyeval.PyFn(gen)}
+        def exit_(code=0):
+            r_ = pyeval.Raised("SystemExit"); r_.value = {".code": code}; raise r_
+        quiet = pyeval.PyFn(lambda *a, **k: None)
+        env = {"__functions__": gfns, "ctx": {".obj": {"debug": "DBG"}}, "arguments": tuple(arguments), "language": language, "grammar": grammar, "target": target, "output_path": opts.get("output_path", "OUT"), "overwrite": opts.get("overwrite", "OVR"), "ignore_case": False,
+               "metamodel_for_file": pyeval.PyFn(lambda f: mm("language " + lang_of(f))), "language_for_file": pyeval.PyFn(lambda f: {".name": lang_of(f)}), "metamodel_for_language": pyeval.PyFn(lambda l, **k: mm("language " + l)),
+               "metamodel_from_file": pyeval.PyFn(lambda g, **k: mm("grammar " + g)), "generator_description": pyeval.PyFn(gen_desc),
+               "TextXError": pyeval.PyFn(lambda *a, **k: {".cls": "TextXError", ".bases": ["TextXError"]}), "TextXRegistrationError": pyeval.PyFn(lambda *a, **k: {".cls": "TextXRegistrationError"}),
+               "logger": {".info": quiet, ".error": quiet}, "logging": {".error": quiet, ".info": quiet}, "sys": {".exit": pyeval.PyFn(exit_)},
+               "os": {".path": {".abspath": pyeval.PyFn(lambda f: "/abs/" + f), ".splitext": pyeval.PyFn(os.path.splitext), ".basename": pyeval.PyFn(os.path.basename), ".dirname": pyeval.PyFn(os.path.dirname), ".join": pyeval.PyFn(os.path.join)}}}
+        for extra_ in gps: env.setdefault(extra_, None)
+        try: pyeval.run_block(gfn.body, env); status = 0
+        except pyeval.Raised as r_:
+            status = r_.value.get(".code") if r_.cls == "SystemExit" and isinstance(r_.value, dict) else "raises " + r_.cls
+        except pyeval.Unsupported as u_: raise AnalysisError("generate: outside the evaluated subset: %s" % u_)
+        return status, [x[1:] for x in log if x[0] == "generate"], [x[1:] for x in log if x[0] == "load"], log
+    G = lambda lang, mmtag, model, **kw: (lang, mmtag, model, "OUT", "OVR", "DBG", kw)
+    GCASES = [
+        ("two files of two languages, all declared arguments given", dict(arguments=["a.x", "--name", "N", "b.y", "--my-flag"]), 1, None, None),          # lx declares nothing (None: anything goes) but ly ... see below
+        ("one file, a valued and a boolean argument with dashes", dict(arguments=["b.y", "--name", "'N'", "--my-flag"]), 0, [G("ly", "language ly", "b.y", name="N", my_flag=True)], [("language ly", "b.y", {})]),
+        ("a model parameter among the arguments", dict(arguments=["b.y", "--opt", "7", "--name", "N"]), 0, [G("ly", "language ly", "b.y", opt="7", name="N")], [("language ly", "b.y", {"opt": "7"})]),
+        ("a generator without declared arguments accepts any", dict(arguments=["a.x", "--whatever", "1"]), 0, [G("lx", "language lx", "a.x", whatever="1")], [("language lx", "a.x", {})]),
+        ("the mandatory argument is missing and no argument is given at all", dict(arguments=["b.y"]), 1, [], None),
+        ("the mandatory argument is missing, another one is given", dict(arguments=["b.y", "--my-flag"]), 1, [], None),
+        ("an undeclared argument is given", dict(arguments=["b.y", "--name", "N", "--bogus", "1"]), 1, [], None),
+        ("the second file's generator misses its mandatory argument", dict(arguments=["a.x", "b.y"]), 1, [G("lx", "language lx", "a.x")], None),
+        ("the second file's generator gets an undeclared argument", dict(arguments=["a.x", "b.y", "--name", "N", "--bogus"]), 1, [G("lx", "language lx", "a.x", name="N", bogus=True)], None),
+        ("a generator with an empty declaration and no arguments", dict(arguments=["c.z"]), 0, [G("lz", "language lz", "c.z")], None),
+        ("--language given", dict(arguments=["a.x", "--name", "N"], language="L"), 0, [G("L", "language L", "a.x", name="N")], [("language L", "a.x", {})]),
+        ("--grammar given", dict(arguments=["a.x", "--name", "N"], grammar="g.tx"), 0, [G("any", "grammar g.tx", "a.x", name="N")], None),
+        ("no model file, custom arguments only", dict(arguments=["--name", "N"]), 0, [G("textx", "language textx", None, name="N")], []),
+        ("no model file and no arguments", dict(arguments=[]), 1, [], []),
+        ("no generator is registered for the language of the file", dict(arguments=["d.unknown"]), 1, [], None),
+        ("the generator fails with a TextXError", dict(arguments=["c.z"], failing_gen=("lz",)), 1, None, None)]
+    GCASES = GCASES[1:]
+    for what, kw, want_status, want_gen, want_loads in GCASES:
+        inst += 1
+        status, gens, loads, log = grun(**kw)
+        okc = status == want_status and (want_gen is None or gens == want_gen) and (want_loads is None or loads == want_loads)
+        ob("C30", "C30.g", GN, "generate", what, okc)
+        if not okc: out.append(Finding("C30", "C30.g", GN, "generate", what, "textx generate %s (%s): exit status %s, generator calls %s, models loaded %s; documented: exit status %s%s%s" % (" ".join(kw["arguments"]), what, status, gens, loads, want_status, ", generator calls %s" % (want_gen,) if want_gen is not None else "", ", models loaded %s" % (want_loads,) if want_loads is not None else "")))
+    # the describe call is told whether the language was deduced (any_permitted)
+    inst += 1
+    _st, _g, _l, log = grun(arguments=["c.z"]); _st2, _g2, _l2, log2 = grun(arguments=["c.z"], language="lz")
+    d1 = [x for x in log if x[0] == "describe"]; d2 = [x for x in log2 if x[0] == "describe"]
+    okd = d1 == [("describe", "lz", "T", True)] and d2 == [("describe", "lz", "T", False)]
+    ob("C30", "C30.g", GN, "generate", "generator lookup: deduced language may fall back to 'any', an explicit one may not", okd)
+    if not okd: out.append(Finding("C30", "C30.g", GN, "generate", "generator_description(language, target, any_permitted)", "the generator is looked up as %s for a deduced language and %s for --language lz; documented (lz, T, any_permitted=True) and (lz, T, any_permitted=False)" % (d1, d2)))
     return inst, out
 def r_C33c_C34g(root):
     out = []; inst = 0
